@@ -2,7 +2,7 @@
    `run true` is the access order of the code after the fix: commits (tied to the code by the
    controlled-scheduler correspondence check); `run false` is the order of the pinned tree. *)
 From ZV.Common Require Import Base.
-From ZV.C16 Require Import Model ModelSeq ProofsBase ProofsInv ProofsStep ProofsMain ProofsRefute ProofsSeq.
+From ZV.C16 Require Import Model ModelSeq ProofsBase ProofsInv ProofsStep ProofsMain ProofsRefute ProofsSeq ProofsSolo.
 Open Scope N_scope.
 
 (* (i) one-writer-many-readers: for any number of threads, any programs, any schedule, at most one
@@ -189,6 +189,48 @@ Check seq_writer_exclusion :
     let st := srun_ops true ops sinit in
     nth_error (mgrs st) i = Some g -> lvl (m_sh g) = 3 -> handed_writers st i <= 1.
 Print Assumptions seq_writer_exclusion.
+
+(* ---- the sequential summaries of ModelSeq.v are what a thread computes under the small-step
+        semantics when nobody interferes (ties the two models together) ---- *)
+Theorem solo_acquire_refines :
+  forall tid s th k rest,
+    k <> KRO -> lck s = None -> tpc th = Idle -> prog th = acq_op k :: rest ->
+    exists n,
+      titer n tid s th =
+      Some (match acquire_seq s k with
+            | (s', Some t) => (s', got_token th t)
+            | (s', None) => (s', refused th)
+            end).
+Proof. exact solo_acquire_proof. Qed.
+Check solo_acquire_refines :
+  forall tid s th k rest,
+    k <> KRO -> lck s = None -> tpc th = Idle -> prog th = acq_op k :: rest ->
+    exists n,
+      titer n tid s th =
+      Some (match acquire_seq s k with
+            | (s', Some t) => (s', got_token th t)
+            | (s', None) => (s', refused th)
+            end).
+Print Assumptions solo_acquire_refines.
+
+Theorem solo_release_refines :
+  forall tid s th i t rest,
+    lck s = None -> tpc th = Idle -> pend th = [] -> prog th = Drop i :: rest ->
+    nth_error (held th) i = Some t -> tk t <> KRO ->
+    exists n,
+      titer n tid s th =
+      Some (release_seq s (tk t),
+            Th rest Idle (remove_nth i (held th)) (cache_r th) (cache_w th) [] (res th)).
+Proof. exact solo_release_proof. Qed.
+Check solo_release_refines :
+  forall tid s th i t rest,
+    lck s = None -> tpc th = Idle -> pend th = [] -> prog th = Drop i :: rest ->
+    nth_error (held th) i = Some t -> tk t <> KRO ->
+    exists n,
+      titer n tid s th =
+      Some (release_seq s (tk t),
+            Th rest Idle (remove_nth i (held th)) (cache_r th) (cache_w th) [] (res th)).
+Print Assumptions solo_release_refines.
 
 (* the hypotheses of the positive theorems are inhabited by non-trivial runs *)
 Example writer_exclusion_nontrivial :
